@@ -228,6 +228,25 @@ func vsReplayEdgeCover(run *core.Run, prop string, crash bool) {
 	if gst.Behaviours == 0 {
 		core.Fatal("vacuity: no transition re-requests a view cached before a rollback")
 	}
+	// height 3 (a key created, deleted and re-created by three successive commits, seen from below): create / delete+write / re-create
+	dtags, devery := "acd", int64(2)
+	if run.Thorough() {
+		dtags, devery = "acde", 1
+	}
+	deepCfg := vsCfg(3, 1, dtags, true, true, true, true, true, "VIEW GenView\nACTION_CONSTRAINT EmitDeepEdge\n")
+	_, dst := vsGenerateAndReplayCfg(run, deepCfg, nil, func(b *vsBehaviour, n int64, scratch string) {
+		if (n+run.Seed)%devery != 0 {
+			return
+		}
+		conc := vsConcs[int((n+run.Seed)%int64(len(vsConcs)))]
+		out, err := vsReplay("ldb", conc, b, scratch)
+		if err != nil {
+			core.Fatal("height-3 replay infrastructure: %v", err)
+		}
+		run.Count("replayed_behaviours_ldb_height3", 1)
+		vsReportMismatches(run, prop, "ldb-height3", conc, b, out.Mismatches)
+	})
+	run.Traces += dst.Behaviours / devery
 	run.Traces += walks
 	run.Traces += st.Behaviours
 	run.Set("edge_cover", fmt.Sprintf("VStore Gen MaxH=2 views=1: %d abstract states, %d transitions, one behaviour replayed per transition", res.Distinct, res.Generated))
